@@ -11,7 +11,7 @@ Hypotheses that a global invariant would provide are explicit:
 * `hne : (s.obj h).id ≠ ID.gen s.nextId` — nor the id of the session itself
   (both follow from "every minted id in use is `< nextId`").
 -/
-namespace Sx
+namespace Sx.Loc
 
 /-- the session object after a rotation -/
 def rotObj (s : State) (h : Nat) : Sess :=
@@ -438,4 +438,4 @@ example : (startValid {} exState (.gen 0) 0 exReq []).1.nextId = 1 :=
 
 end examples
 
-end Sx
+end Sx.Loc
